@@ -787,6 +787,12 @@ def _run(ctx, res, real):
 
 
 def replay(rep, res):
+    _replay(rep, res)
+    if rep.get('sig'):  # only the recorded failure counts
+        res.hits = [h for h in res.hits if h['sig'] == rep['sig']]
+
+
+def _replay(rep, res):
     real = Real()
     try:
         inp = rep['input']
